@@ -797,7 +797,7 @@ def may_write(prog, cls, f, depth=0, seen=None):
 
 
 CLAIM = {
-    "text": "Decides, from the source formulas themselves: (1) every concrete reparameterisation implements both directions, accepts **kwargs and returns the (x, x_prime, log_j) triple, every distance converter both directions with (value, log_j); (2) every registry entry (general, GW, rescaling functions, GW aliases) names a class / pair that exists and only constructor keywords it accepts; (3) on the CFG of every reparameterisation method, the log-Jacobian returned by each elementary map is added to log_j on every path before being re-bound or returned, threaded helpers re-bind log_j, and log_j is never overwritten; (4) by computer algebra on the extracted expressions: for every built-in elementary map (zero-to-one, minus-one-to-one, logit/sigmoid, log/exp, rescale-to-bounds, scale-and-shift, power-law distance, polar Angle, spherical AnglePair in both conventions, delta-phase, null) the reported log-Jacobian differs from log|det of the derivative of the map formula| by a constant, inverse(forward(x)) simplifies to x for the scalar pairs, and the two reported log-Jacobians are negatives at corresponding points; (5) the inverse of RescaleToBounds / CombinedReparameterisation undoes the forward steps in reverse order under the same guards; (6) both FlowProposal directions copy every non-sampling field; (7) whatever update() may change reset() restores, and the prime-prior bounds are recomputed after every change of bounds / detected edges. Typestate: once a post-rescaling switched the offered prime prior off nothing switches it back on unguarded. Forward / inverse symmetry of per-class field lists: whatever extra fields a proposal class fills in its effective rescale (MRO method plus installed wrappers) are also filled by its effective inverse_rescale (found and repaired: AugmentedFlowProposal left the augment fields NaN). The Gaussian prime prior of the angle maps is offered only with the auxiliary chi radius (C07.9; found and repaired the missing guard in Angle). An option string that is looked up case-insensitively is compared with its literal values under the same normalisation (R-NORM; found and repaired post_rescaling='Logit').",
+    "text": "Decides, from the source formulas themselves: (1) every concrete reparameterisation implements both directions, accepts **kwargs and returns the (x, x_prime, log_j) triple, every distance converter both directions with (value, log_j); (2) every registry entry (general, GW, rescaling functions, GW aliases) names a class / pair that exists and only constructor keywords it accepts; (3) on the CFG of every reparameterisation method, the log-Jacobian returned by each elementary map is added to log_j on every path before being re-bound or returned, threaded helpers re-bind log_j, and log_j is never overwritten; (4) by computer algebra on the extracted expressions: for every built-in elementary map (zero-to-one, minus-one-to-one, logit/sigmoid, log/exp, rescale-to-bounds, scale-and-shift, power-law distance, polar Angle, spherical AnglePair in both conventions, delta-phase, null) the reported log-Jacobian differs from log|det of the derivative of the map formula| by a constant, inverse(forward(x)) simplifies to x for the scalar pairs, and the two reported log-Jacobians are negatives at corresponding points; (5) the inverse of RescaleToBounds / CombinedReparameterisation undoes the forward steps in reverse order under the same guards; (6) both FlowProposal directions copy every non-sampling field; (7) whatever update() may change reset() restores, and the prime-prior bounds are recomputed after every change of bounds / detected edges. Typestate: once a post-rescaling switched the offered prime prior off nothing switches it back on unguarded. Forward / inverse symmetry of per-class field lists: whatever extra fields a proposal class fills in its effective rescale (MRO method plus installed wrappers) are also filled by its effective inverse_rescale (found and repaired: AugmentedFlowProposal left the augment fields NaN). The Gaussian prime prior of the angle maps is offered only with the auxiliary chi radius (C07.9; found and repaired the missing guard in Angle). An option string that is looked up case-insensitively is compared with its literal values under the same normalisation (R-NORM; found and repaired post_rescaling='Logit'). A clip inside an elementary map is read as the identity on the map's domain, and its bounds must not be an attribute that the class re-learns from the live points (C07.4).",
     "note": "Identities are decided on the regular interior of the domain (the singular sets excluded by the property) with sympy as the normaliser of extracted straight-line expressions - no repository code is executed and no path is explored. Numerical round-trip error, the comoving-distance interpolant (declares no Jacobian), support equality of prime priors and edge points are not decided.",
 }
 
